@@ -6,7 +6,8 @@ TRUSTED = [
     'Coq 8.16.1 kernel; every theorem closed under the global context; premises `pick` fresh / extensional and `should` are Section hypotheses',
     'Model/Renamer.v: hand transcription of NameAssigner.__call__, allow_rename_locals/globals over the table of bindings; tied by leg R: the model (vm_compute, real name stream from Gen/NameGen.v, cost oracle tabulated from the real should_rename) must choose exactly the names the real renamer chose on every generated program',
     'translator/namegen.py (alphabets, order and filter of the name stream; interpreter keyword/builtin tables), translator/pipeline.py (statement list, gates and argument wiring of minify); for C11 translator/statesites.py (a syntactic inventory of state that outlives a call: it recognises the listed idioms only - state hidden behind an alias, a closure cell or a C extension is not seen)',
-    'NOT modelled in Coq: the analysis that builds the table (mapper.py, bind_names.py, resolve_names.py, reservation_scope) - decided by the resolver-based alpha-equivalence oracle only; harness/pyscope.py is the reference resolver, cross-checked against CPython symtable (leg S)',
+    'Model/Scope.v + Gen/ResolveNames.v (translator/resolve.py reads get_binding clause by clause, the namespace helpers, NameBinder.get_binding and the taint sources): the lookup of resolve_names on frames, proved to refine the symtable discipline (C03_lookup_refines_symtable); tied by leg A on the real namespaces of every generated program (frames = the view the model is given, owner chosen = the reference resolver, occurrence namespaces); Model/Resolve.v (reservation scopes) tied by leg R (rscope_check on the real tables)',
+    'NOT modelled in Coq: which nodes bind which names in which namespace (mapper.py add_namespace, bind_names.py visitors) - compared with harness/pyscope.py by leg A (part B/N) and decided by the resolver-based alpha-equivalence oracle; harness/pyscope.py is the reference resolver, cross-checked against CPython symtable (leg S)',
 ]
 HOIST_TRUSTED = ['Model/Hoist.v: transcription of util.insert, common_path/place_bindings, HoistedValue equality; tied by vm_compute cases against the real functions']
 
